@@ -659,6 +659,7 @@ def value_paths(F, rep):
     # .. or the function that derives the quotient from the dividend (the one DivRes replays) records, when the dividend is still
     # unknown, a constraint *on the dividend* that names the quotient
     replay = None
+    back_why = None
     fcc = F.fn(TC + "check_constraints")
     for arm, alt in tc.arm_of(F, fcc, TCM + "Constraint", "DivRes"):
         for c in nodes(arm["body"], "MethodCall"):
@@ -687,9 +688,26 @@ def value_paths(F, rep):
                             nm_pl = [peel(a_).get("name") for a_ in (con.get("args") or [])]
                             if on in d0 and nm_on == ty_params[0]["name"] and \
                                     any(x in d1 and n_ == ty_params[1]["name"] for x, n_ in zip(names, nm_pl)):
-                                back = True
+                                # .. and that constraint is replayed by check_constraints as the very same derivation: the
+                                # deriver itself, with the node (the dividend) first and the payload (the quotient) second
+                                cn_back = tc.constraint_name(c["args"][2])
+                                replayed = False
+                                cc_nodes = [b["hid"] for prm in fcc["params"] for b in pat_bindings(prm["pat"])
+                                            if prm["ty"].strip().split("::")[-1] == "TyID"]
+                                for arm2, alt2 in tc.arm_of(F, fcc, TCM + "Constraint", cn_back or "?"):
+                                    bound2 = [b["hid"] for b in pat_bindings(alt2)]
+                                    for c2 in nodes(arm2["body"], "MethodCall"):
+                                        if callee(c2) == replay:
+                                            hs = [tc.local_hid(a_) for a_ in c2["args"]]
+                                            tys = [h for h in hs if h in cc_nodes or h in bound2]
+                                            replayed = len(tys) >= 2 and tys[0] in cc_nodes and tys[1] in bound2
+                                back = replayed
+                                if not replayed:
+                                    back_why = "Constraint::%s, which the dividend carries, is not replayed as %s(dividend, quotient)" % (cn_back, last(replay))
     rep.ob("VALUE-PATH", "expression|Div|quotient-follows-dividend", back,
            "the dividend carries a constraint naming the quotient, so refining the dividend re-derives the quotient's type" if back else
+           ("%s: when the dividend becomes known the quotient is not derived - `g :: fn a do c := a / 2  d := c + \"px\" end` with "
+            "g(4) is accepted" % back_why) if back_why else
            "`c := a / 2` records DivRes(a) on the quotient only; when `a` becomes known later (a parameter at a call) nothing "
            "revisits the quotient, which stays Unknown: `g :: fn a do c := a / 2  d := c + \"px\" end` with g(4) is accepted",
            fexpr["sp"])
